@@ -230,7 +230,9 @@ DependsOn == [
   wsHost |-> {"CDNOriginHost"}, wsPath |-> {"CDNWsUrlPath"}, singleplex |-> {"NumConn"}, numConn |-> {"NumConn"},
   keepAlive |-> {"KeepAlive"}, timeout |-> {"StreamTimeout"}, names |-> {"AlternativeNames"},
   enc |-> {"EncryptionMethod"}, unordered |-> {"UDP"} ]
+\* (bound variables, not LET: TLC evaluates the two rows once instead of once per use)
 Separable == Done =>
-  \A f \in DOMAIN DependsOn : \A o \in OptNames \ DependsOn[f] : \A v \in Values[o] :
-     Expected([cfg EXCEPT ![o] = v])[f] = Expected(cfg)[f]
+  \A e1 \in {Expected(cfg)} : \A o \in OptNames : \A v \in Values[o] :
+    \A e2 \in {Expected([cfg EXCEPT ![o] = v])} :
+      \A f \in DOMAIN DependsOn : o \notin DependsOn[f] => e2[f] = e1[f]
 =============================================================================
